@@ -191,7 +191,22 @@ func knownBits(t *Term) (kz, ko uint64) {
 		if tz > w {
 			tz = w
 		}
-		return mask(tz), 0
+		kz := mask(tz)
+		if t.Op == OBvAdd {
+			// leading known zeros: x < 2^(w-la), y < 2^(w-lb) => x+y < 2^(w-min(la,lb)+1), no wrap
+			lead := func(z uint64) int { return bits.LeadingZeros64((^z&mask(w))<<uint(64-w) | (uint64(1)<<uint(64-w) - 1)) }
+			la, lb := lead(a(0).KZ), lead(a(1).KZ)
+			if lb < la {
+				la = lb
+			}
+			if la > w {
+				la = w
+			}
+			if la >= 2 {
+				kz |= mask(w) &^ mask(w-(la-1))
+			}
+		}
+		return kz, 0
 	case OBvMul:
 		tz := bits.TrailingZeros64(^a(0).KZ) + bits.TrailingZeros64(^a(1).KZ)
 		if tz > w {
@@ -541,12 +556,19 @@ func (c *Ctx) bvbin(op Op, a, b *Term) *Term {
 		if b.IsConst() && b.C == 0 {
 			return a
 		}
+		// (x + c1) + c2 -> x + (c1+c2)
+		if b.IsConst() && a.Op == OBvAdd && len(a.Args) == 2 && a.Args[1].IsConst() {
+			return c.bvbin(OBvAdd, a.Args[0], c.BVC((a.Args[1].C+b.C)&mask(w), w))
+		}
 	case OBvSub:
 		if b.IsConst() && b.C == 0 {
 			return a
 		}
 		if a == b {
 			return c.BVC(0, w)
+		}
+		if b.IsConst() { // x - c -> x + (-c)
+			return c.bvbin(OBvAdd, a, c.BVC((-b.C)&mask(w), w))
 		}
 	case OBvMul:
 		if a.IsConst() {
@@ -573,6 +595,16 @@ func (c *Ctx) bvbin(op Op, a, b *Term) *Term {
 	case OBvURem:
 		if b.IsConst() && b.C != 0 && b.C&(b.C-1) == 0 {
 			return c.bvbin(OBvAnd, a, c.BVC(b.C-1, w))
+		}
+	case OBvSDiv, OBvSRem:
+		// both operands known non-negative: same as the unsigned operation
+		// (also for a zero divisor: sdiv x 0 = -1 = udiv x 0, srem x 0 = x)
+		sb := uint64(1) << uint(w-1)
+		if a.KZ&sb != 0 && b.KZ&sb != 0 {
+			if op == OBvSDiv {
+				return c.bvbin(OBvUDiv, a, b)
+			}
+			return c.bvbin(OBvURem, a, b)
 		}
 	case OBvShl, OBvLshr:
 		if b.IsConst() {
